@@ -41,6 +41,7 @@ type runRecord struct {
 	Events     int             `json:"events"`
 	Sig        string          `json:"sig"`
 	Raw        string          `json:"raw"`
+	Canon      string          `json:"canon"`
 	Faults     map[string]int  `json:"faults,omitempty"`
 	Probes     map[string]int  `json:"probes,omitempty"`
 	Nontrivial bool            `json:"nontrivial"`
@@ -190,7 +191,7 @@ func runWorker(bin string, j job, gomaxprocs int, extraEnv ...string) workerResu
 	os.WriteFile(jf, jb, 0o644)
 	defer os.Remove(jf)
 	cmd := exec.Command(bin, "-test.run", "TestWorker", "-test.timeout", "0", "-test.count", "1")
-	cmd.Env = append(os.Environ(), "TQSIM_JOB="+jf, "GOMAXPROCS="+strconv.Itoa(gomaxprocs))
+	cmd.Env = append(os.Environ(), "TQSIM_JOB="+jf, "GOMAXPROCS="+strconv.Itoa(gomaxprocs), "GODEBUG=asyncpreemptoff=1")
 	cmd.Env = append(cmd.Env, extraEnv...)
 	var eb bytes.Buffer
 	cmd.Stderr = &eb
@@ -621,6 +622,9 @@ func sameViolation(rec *runRecord, died bool, stderr string, want violation, pro
 // once more; ok=false means the violation did not reproduce at all.
 func minimise(bin string, p *plan.Plan, want violation, dir string) (*plan.Plan, bool) {
 	rec, died, se := runPlan(bin, p, dir, "repro", false)
+	for k := 0; k < 2 && !sameViolation(rec, died, se, want, p.Property); k++ {
+		rec, died, se = runPlan(bin, p, dir, "repro", false)
+	}
 	if !sameViolation(rec, died, se, want, p.Property) {
 		return nil, false
 	}
